@@ -250,6 +250,38 @@ def sampling_search(ctx, deep, only=None, record=None):
     return ev, viol
 
 
+def fourier_finite_search(ctx):
+    """every Fourier field must be finite: the weights sqrt(S(k) prod(dk)) of models on the numerical (Hankel) spectrum, whose values at
+    large k are noise of either sign"""
+    import gstools as gs
+    viol, ev = [], 0
+    cfgs = [("Stable", {"alpha": 2.0}), ("Stable", {"alpha": 0.5}), ("Rational", {}), ("Spherical", {}), ("Cubic", {}), ("SuperSpherical", {}),
+            ("Matern", {}), ("Exponential", {}), ("HyperSpherical", {})]
+    pos = np.random.RandomState(ctx.seed + 17).rand(3, 5) * 10
+    with warnings.catch_warnings():
+        warnings.simplefilter("ignore")
+        for name, kw in cfgs:
+            for dim in (1, 2, 3):
+                for mn in ((8, 24) if ctx.quick else (8, 16, 24, 32)):
+                    if dim == 3 and mn > 16 and ctx.quick:
+                        continue
+                    try:
+                        model = getattr(gs, name)(dim=dim, len_scale=2.0, **kw)
+                    except Exception:
+                        continue
+                    srf = gs.SRF(model, generator="Fourier", seed=7, mode_no=[mn] * dim, period=[16.0] * dim)
+                    f = srf(pos[:dim])
+                    ev += 1
+                    if not np.all(np.isfinite(f)):
+                        sf = srf.generator._spectrum_factor
+                        viol.append({"key": f"fourier:nonfinite-field:{name}:d{dim}",
+                                     "what": f"SRF({name}{kw}, dim={dim}, generator='Fourier', mode_no={mn}, period=16) returns non-finite values "
+                                             f"({int((~np.isfinite(sf)).sum())} of {sf.size} spectrum factors are NaN: negative numerical spectrum under the square root)",
+                                     "case": dict(model=repr(model), mode_no=mn, period=16.0)})
+                        break
+    return ev, viol
+
+
 def search(ctx, deep=False):
     import gstools as gs
     rng = np.random.RandomState(ctx.seed + 1)
@@ -347,11 +379,13 @@ def search(ctx, deep=False):
                 errs.append(np.var(vals[:, 0] * vals[:, 1]))
             ev += 800
     ev_s, v_s = sampling_search(ctx, deep)
-    ev += ev_s
-    viol = v_s + viol
+    ev_f, v_f = fourier_finite_search(ctx)
+    ev += ev_s + ev_f
+    viol = v_f + v_s + viol
     return {"evaluations": ev, "violations": viol[:40],
             "summary": f"spectral-sampling test ({ev_s} generators: seed-averaged conditional covariance (var/N) sum cos<k_j,h> against model.correlation, "
                        "6 sigma and 2 % of the variance; 17 classes x dim 1-3 x mode_no 64/1000 in thorough, a rotating subset in quick); "
+                       f"{ev_f} Fourier fields of numerical-spectrum models checked for finiteness; "
                        f"seed ensembles ({M} seeds per configuration, {len(configs)} configurations incl. anisotropic/rotated models, nugget, one MCMC-sampled model "
                        "in quick / all in thorough): mean, pointwise variance and lag covariances against model.covariance at a 6-sigma threshold; "
                        "Fourier ensembles against the spectral Riemann sum and that sum against the model (5 % of var)"}
